@@ -76,3 +76,17 @@ Theorem C13_restore_learners_roundtrip : forall mi mb li cs c p,
   forall x, In x (c_learners c) <-> (In x (cs_learners cs) \/ In x (cs_learners_next cs)) /\ x <> 0.
 Proof. exact restore_learners_fresh. Qed.
 Print Assumptions C13_restore_learners_roundtrip.
+
+(* Restore, learner half of the round-trip for a joint ConfState: the ids it names as Learners
+   or LearnersNext become learners when they are not outgoing voters and staged learners
+   (LearnersNext) when they are.  For the ConfState of a valid configuration (Learners disjoint
+   from VotersOutgoing, LearnersNext inside it) that is: Learners and LearnersNext come back. *)
+Theorem C13_restore_learners_joint_roundtrip : forall mi mb li cs c p,
+  cc_restore (make_tracker mi mb) li cs = inl (c, p) -> cs_voters_outgoing cs <> [] ->
+  forall x,
+    (In x (c_learners c) <->
+       (In x (cs_learners cs) \/ In x (cs_learners_next cs)) /\ x <> 0 /\ ~ In x (cs_voters_outgoing cs)) /\
+    (In x (c_learners_next c) <->
+       (In x (cs_learners cs) \/ In x (cs_learners_next cs)) /\ x <> 0 /\ In x (cs_voters_outgoing cs)).
+Proof. exact restore_learners_joint_fresh. Qed.
+Print Assumptions C13_restore_learners_joint_roundtrip.
